@@ -248,6 +248,18 @@ def twinSynced (a b : World) : Bool :=
   posView a == posView b && vammView a == vammView b && a.engine.st == b.engine.st
   && (Spec.W.accounts a).all (fun x => Spec.W.bal a x == Spec.W.bal b x)
 
+/-- which flow an OpenPosition takes from a given pre-state (for finding signatures) -/
+def openFlow (w : World) (sender : Nat) (tx : World.Tx) : String :=
+  match tx with
+  | .engine (.openPosition v side margin lev _) =>
+    let p := Engine.readPosition w.engine v sender
+    if !(w.engine.positions.any (fun q => q.vamm == v && q.trader == sender)) || p.direction == sideToDirection side then "(increase)"
+    else
+      match Engine.positionNotionalPnl w.q w.engine p .spot with
+      | .ok (n, _) => if n > margin * lev / w.engine.cfg.decimals then "(reduce)" else "(reversal)"
+      | .error _ => "(reversal?)"
+  | _ => ""
+
 /-- C13 on one lock-step operation: `a` ran on the cw20 deployment, `b` on the native one with
     exactly what `a` pulled from the caller attached -/
 def twinCheck (a b : Step) : List String :=
